@@ -58,6 +58,9 @@ func (fg *FnGen) call(instr ssa.Instruction, cc *ssa.CallCommon) *Val {
 
 func (fg *FnGen) callWith(cc *ssa.CallCommon, args []*Val, resT types.Type, pos token.Pos, isGo bool) *Val {
 	name := calleeName(cc)
+	savedCC := fg.curCC
+	fg.curCC = cc
+	defer func() { fg.curCC = savedCC }()
 	fg.atCallAsserts(name, args, pos)
 	var res *Val
 	if r, handled := fg.concurrencyCall(cc, args, resT, pos); handled {
@@ -314,7 +317,7 @@ func (fg *FnGen) applyContract(con *Contract, name string, names []string, args 
 		for _, m := range con.Modifies {
 			if ev, ok := countEvent(m); ok {
 				if ev == "*" {
-					fg.havocAllCounters(pos)
+					fg.havocAllCounters(pos, excludedEvents(con))
 				} else {
 					fg.havocCounter("cnt:"+ev, pos)
 				}
@@ -334,9 +337,12 @@ func (fg *FnGen) applyContract(con *Contract, name string, names []string, args 
 		fg.havocAll("call " + name)
 	}
 	for _, m := range con.Modifies {
+		if _, ok := noCountEvent(m); ok {
+			continue
+		}
 		if ev, ok := countEvent(m); ok {
 			if ev == "*" {
-				fg.havocAllCounters(pos)
+				fg.havocAllCounters(pos, excludedEvents(con))
 			} else {
 				fg.havocCounter("cnt:"+ev, pos)
 			}
@@ -481,8 +487,8 @@ func (fg *FnGen) uncontractedCall(cc *ssa.CallCommon, fn *ssa.Function, name str
 				if strings.HasPrefix(comp, "cnt:") {
 					continue
 				}
-				if fg.g.isStableComp(comp) && !fg.g.isStableWriter(comp, fn) {
-					continue
+				if fg.g.isStableComp(comp) && fg.g.stableKeptAcross(comp, []*ssa.Function{fn}) {
+					continue // in the computed write set only through code that cannot run a declared writer (e.g. external one-level writes)
 				}
 				sort, ok := fg.compSorts[comp]
 				if !ok {
@@ -640,7 +646,10 @@ func (fg *FnGen) goCall(x *ssa.Go) {
 	if !fg.modAll {
 		fg.oblige("frame", "go."+calleeName(cc), TFalse, x.Pos(), "goroutine without contract may modify anything")
 	}
+	savedCC := fg.curCC
+	fg.curCC = cc
 	fg.havocAll("go")
+	fg.curCC = savedCC
 	fg.havocAllCounters(x.Pos())
 }
 
@@ -951,7 +960,7 @@ func (g *Gen) addMapComps(ws *writeSet, mt *types.Map) {
 // isStableComp: the component belongs to a field declared `decl stable T.f by <writers>`.
 func (g *Gen) isStableComp(comp string) bool {
 	for prefix := range g.stable {
-		if comp == prefix || strings.HasPrefix(comp, prefix+".") {
+		if comp == prefix || strings.HasPrefix(comp, prefix+".") || (strings.HasPrefix(prefix, "M:") && strings.HasPrefix(comp, prefix+"!")) {
 			return true
 		}
 	}
@@ -969,7 +978,13 @@ func (g *Gen) checkStableDecls() []*Obligation {
 			}
 			continue
 		}
-		if (d.Kind != "stable" && d.Kind != "frozen") || len(d.Args) < 1 {
+		if d.Kind == "stablemaps" && len(d.Args) >= 1 {
+			if o := g.checkStableMaps(d); o != nil {
+				out = append(out, o)
+			}
+			continue
+		}
+		if (d.Kind != "stable" && d.Kind != "frozen" && d.Kind != "stablecells") || len(d.Args) < 1 {
 			continue
 		}
 		sp := g.ssaPkgs[d.PkgPath]
@@ -980,6 +995,17 @@ func (g *Gen) checkStableDecls() []*Obligation {
 		prefix := "H:" + sp.Pkg.Name() + "." + field
 		if d.Kind == "frozen" {
 			prefix = "H:" + field
+		}
+		if d.Kind == "stablecells" {
+			// `decl stablecells int64 by writers`: memory cells of a basic type reached through a *T pointer
+			// (not struct fields, which have their own components) are stored only by the listed writers
+			T := g.resolveTypeString(field, d.PkgPath)
+			if T == nil {
+				out = append(out, &Obligation{Name: g.shortPkg(d.PkgPath) + "." + sanitize(field) + "#stable.cells", Kind: "stable", Fn: field, Desc: "unknown type", NAsserts: -1,
+					Res: SolverResult{Result: "unknown", Output: "cannot resolve type " + field}})
+				continue
+			}
+			prefix = "H:" + typeKey(T)
 		}
 		writers := map[string]bool{}
 		for _, w := range d.Args[1:] {
@@ -1045,6 +1071,10 @@ func (g *Gen) checkStableDecls() []*Obligation {
 		}
 		o := &Obligation{Name: g.shortPkg(d.PkgPath) + "." + field + "#stable.writers", Kind: "stable", Fn: field,
 			Desc: "field " + field + " is stored only by its declared writers: " + strings.Join(d.Args[1:], " "), NAsserts: -1}
+		if d.Kind == "stablecells" {
+			o.Name = g.shortPkg(d.PkgPath) + "." + sanitize(field) + "#stable.cells"
+			o.Desc = "cells of type " + field + " reached through pointers are stored only by: " + strings.Join(d.Args[1:], " ")
+		}
 		if len(offenders) == 0 {
 			o.Res = SolverResult{Result: "unsat", Solver: "ssa-scan"}
 		} else {
@@ -1143,6 +1173,9 @@ func isErrorInterface(T types.Type) bool {
 // to component names; ok=false if some entry needs evaluation.
 func simpleMods(con *Contract, ws *writeSet, g *Gen) {
 	for _, m := range con.Modifies {
+		if _, ok := noCountEvent(m); ok {
+			continue // over-approximated: a contracted callee inside an uncontracted one may perform any event
+		}
 		if ev, ok := countEvent(m); ok {
 			if ev == "*" {
 				ws.allEvents = true
@@ -1409,4 +1442,96 @@ func (g *Gen) externalFuncType(T types.Type) bool {
 		return false
 	}
 	return !g.inRepo(n.Obj().Pkg().Path())
+}
+
+// checkStableMaps: `decl stablemaps map[K]V`: maps of this type are updated (m[k] = v, delete, clear) only while
+// they are under construction in the function that made them, anywhere in the declaring package.
+func (g *Gen) checkStableMaps(d *Decl) *Obligation {
+	sp := g.ssaPkgs[d.PkgPath]
+	if sp == nil {
+		return nil
+	}
+	ts := strings.Join(d.Args, " ")
+	name := g.shortPkg(d.PkgPath) + "." + sanitize(ts) + "#stable.maps"
+	T := g.resolveTypeString(ts, d.PkgPath)
+	mt, ok := T.(*types.Map)
+	if T == nil || !ok {
+		return &Obligation{Name: name, Kind: "stable", Fn: ts, Desc: "unknown map type", NAsserts: -1,
+			Res: SolverResult{Result: "unknown", Output: "cannot resolve map type " + ts}}
+	}
+	prefix := mapComp(mt)
+	g.stable[prefix] = map[string]bool{}
+	var offenders []string
+	var fresh func(v ssa.Value, seen map[ssa.Value]bool) bool
+	fresh = func(v ssa.Value, seen map[ssa.Value]bool) bool {
+		if seen[v] {
+			return true
+		}
+		seen[v] = true
+		switch x := v.(type) {
+		case *ssa.MakeMap:
+			return true
+		case *ssa.Const:
+			return x.Value == nil
+		case *ssa.Phi:
+			for _, e := range x.Edges {
+				if !fresh(e, seen) {
+					return false
+				}
+			}
+			return true
+		case *ssa.ChangeType:
+			return fresh(x.X, seen)
+		}
+		return false
+	}
+	sameMap := func(t types.Type) bool {
+		m, ok := types.Unalias(t).Underlying().(*types.Map)
+		return ok && mapComp(m) == prefix
+	}
+	var visit func(fn *ssa.Function)
+	visit = func(fn *ssa.Function) {
+		for _, b := range fn.Blocks {
+			for _, ins := range b.Instrs {
+				switch x := ins.(type) {
+				case *ssa.MapUpdate:
+					if sameMap(x.Map.Type()) && !fresh(x.Map, map[ssa.Value]bool{}) {
+						offenders = append(offenders, fnKey(fn)+" ("+g.fset.Position(x.Pos()).String()+")")
+					}
+				case *ssa.Call:
+					if bi, ok := x.Call.Value.(*ssa.Builtin); ok && (bi.Name() == "delete" || bi.Name() == "clear") && len(x.Call.Args) > 0 {
+						if sameMap(x.Call.Args[0].Type()) && !fresh(x.Call.Args[0], map[ssa.Value]bool{}) {
+							offenders = append(offenders, fnKey(fn)+" "+bi.Name()+" ("+g.fset.Position(x.Pos()).String()+")")
+						}
+					}
+				}
+			}
+		}
+		for _, a := range fn.AnonFuncs {
+			visit(a)
+		}
+	}
+	for _, m := range sp.Members {
+		switch x := m.(type) {
+		case *ssa.Function:
+			visit(x)
+		case *ssa.Type:
+			for _, TT := range []types.Type{x.Type(), types.NewPointer(x.Type())} {
+				ms := g.prog.MethodSets.MethodSet(TT)
+				for i := 0; i < ms.Len(); i++ {
+					if fn := g.prog.MethodValue(ms.At(i)); fn != nil && fn.Synthetic == "" && fn.Pkg == sp {
+						visit(fn)
+					}
+				}
+			}
+		}
+	}
+	o := &Obligation{Name: name, Kind: "stable", Fn: ts, Desc: "maps of type " + ts + " are updated only while under construction in the function that made them", NAsserts: -1}
+	if len(offenders) == 0 {
+		o.Res = SolverResult{Result: "unsat", Solver: "ssa-scan"}
+	} else {
+		sort.Strings(offenders)
+		o.Res = SolverResult{Result: "unknown", Output: "also updated by: " + strings.Join(dedupe(offenders), "; ")}
+	}
+	return o
 }
